@@ -33,6 +33,66 @@ thread_local! {
     static CLOCK: Cell<Duration> = const { Cell::new(Duration::ZERO) };
     /// number of timed waits that ended in Timeout in this execution
     pub static TIMEOUTS_TAKEN: Cell<u64> = const { Cell::new(0) };
+    /// tasks that are inside a polling wait right now (timed receive / harness sleep): when every
+    /// runnable task is one of them only the passage of time can still happen, and the scheduler
+    /// decides whose time is up (see `time_passes`)
+    pub static POLLERS: std::cell::RefCell<std::collections::BTreeMap<usize, Poller>> = const { std::cell::RefCell::new(std::collections::BTreeMap::new()) };
+    /// per task: how many of its timed waits have ended in Timeout
+    pub static TIMEOUT_COUNT: std::cell::RefCell<std::collections::BTreeMap<usize, u64>> = const { std::cell::RefCell::new(std::collections::BTreeMap::new()) };
+}
+
+#[derive(Clone, Debug)]
+pub enum Poller {
+    /// timed receive that times out at this virtual time
+    Timed { deadline: Duration },
+    /// "sleep until nothing else happens": wakes once every timed waiter has had its timeout at
+    /// least once since the sleep began (snapshot of TIMEOUT_COUNT at that moment)
+    Sleeper { seen: std::collections::BTreeMap<usize, u64> },
+}
+
+fn me() -> usize {
+    shuttle::current::get_current_task().map(|t| t.into()).unwrap_or(usize::MAX)
+}
+
+/// All runnable tasks (`ids`) are pollers: returns the one whose wait ends next.
+pub fn time_passes(ids: &[usize]) -> Option<usize> {
+    POLLERS.with(|p| {
+        let p = p.borrow();
+        if ids.is_empty() || !ids.iter().all(|i| p.contains_key(i)) {
+            return None;
+        }
+        let counts = TIMEOUT_COUNT.with(|c| c.borrow().clone());
+        let timed: Vec<(Duration, usize)> = {
+            let mut v: Vec<(Duration, usize)> = ids.iter().filter_map(|i| match &p[i] { Poller::Timed { deadline } => Some((*deadline, *i)), _ => None }).collect();
+            v.sort();
+            v
+        };
+        for i in ids {
+            if let Poller::Sleeper { seen } = &p[i] {
+                let ready = timed.iter().all(|(_, t)| counts.get(t).copied().unwrap_or(0) > seen.get(t).copied().unwrap_or(0));
+                if ready {
+                    return Some(*i);
+                }
+            }
+        }
+        timed.first().map(|(_, i)| *i).or_else(|| ids.first().copied())
+    })
+}
+
+/// Harness side: park the calling task until nothing but timed waiters is left and each of them
+/// has timed out at least once.
+pub fn sleep_until_quiescent() {
+    let id = me();
+    let seen = TIMEOUT_COUNT.with(|c| c.borrow().clone());
+    POLLERS.with(|p| p.borrow_mut().insert(id, Poller::Sleeper { seen }));
+    loop {
+        QUIESCENT_AT_LAST_YIELD.with(|c| c.set(false));
+        shuttle::thread::yield_now();
+        if QUIESCENT_AT_LAST_YIELD.with(|c| c.get()) {
+            break;
+        }
+    }
+    POLLERS.with(|p| p.borrow_mut().remove(&id));
 }
 
 /// Called by the harness at the start of every execution.
@@ -40,6 +100,8 @@ pub fn reset_execution_state() {
     CLOCK.with(|c| c.set(Duration::ZERO));
     QUIESCENT_AT_LAST_YIELD.with(|c| c.set(false));
     TIMEOUTS_TAKEN.with(|c| c.set(0));
+    POLLERS.with(|p| p.borrow_mut().clear());
+    TIMEOUT_COUNT.with(|c| c.borrow_mut().clear());
 }
 
 pub fn virtual_now() -> Duration {
@@ -120,30 +182,45 @@ impl<T> Receiver<T> {
         if timeout >= FOREVER {
             return self.inner.recv().map_err(|_| RecvTimeoutError::Disconnected);
         }
-        loop {
+        if timeout.is_zero() {
+            return match self.inner.try_recv() {
+                Ok(v) => Ok(v),
+                Err(TryRecvError::Disconnected) => Err(RecvTimeoutError::Disconnected),
+                Err(TryRecvError::Empty) => {
+                    TIMEOUTS_TAKEN.with(|c| c.set(c.get() + 1));
+                    Err(RecvTimeoutError::Timeout)
+                }
+            };
+        }
+        let id = me();
+        let deadline = virtual_now().saturating_add(timeout);
+        POLLERS.with(|p| p.borrow_mut().insert(id, Poller::Timed { deadline }));
+        let res = loop {
             match self.inner.try_recv() {
-                Ok(v) => return Ok(v),
-                Err(TryRecvError::Disconnected) => return Err(RecvTimeoutError::Disconnected),
+                Ok(v) => break Ok(v),
+                Err(TryRecvError::Disconnected) => break Err(RecvTimeoutError::Disconnected),
                 Err(TryRecvError::Empty) => {}
-            }
-            if timeout.is_zero() {
-                TIMEOUTS_TAKEN.with(|c| c.set(c.get() + 1));
-                return Err(RecvTimeoutError::Timeout);
             }
             QUIESCENT_AT_LAST_YIELD.with(|c| c.set(false));
             shuttle::thread::yield_now();
             if QUIESCENT_AT_LAST_YIELD.with(|c| c.get()) {
                 // one last look: nothing can have changed, but keep the model simple and safe
                 match self.inner.try_recv() {
-                    Ok(v) => return Ok(v),
-                    Err(TryRecvError::Disconnected) => return Err(RecvTimeoutError::Disconnected),
+                    Ok(v) => break Ok(v),
+                    Err(TryRecvError::Disconnected) => break Err(RecvTimeoutError::Disconnected),
                     Err(TryRecvError::Empty) => {}
                 }
-                advance_clock(timeout);
+                let now = virtual_now();
+                if deadline > now {
+                    advance_clock(deadline - now);
+                }
                 TIMEOUTS_TAKEN.with(|c| c.set(c.get() + 1));
-                return Err(RecvTimeoutError::Timeout);
+                TIMEOUT_COUNT.with(|c| *c.borrow_mut().entry(id).or_insert(0) += 1);
+                break Err(RecvTimeoutError::Timeout);
             }
-        }
+        };
+        POLLERS.with(|p| p.borrow_mut().remove(&id));
+        res
     }
 }
 
